@@ -70,6 +70,6 @@ def reset_stage_to_terminal(stage: StageExecution, end_time: int) -> None:
     stage.status = WorkflowStatus.TERMINAL
     stage.end_time = end_time
     for task in stage.tasks:
-        if task.status in (WorkflowStatus.RUNNING, WorkflowStatus.REDIRECT):
+        if task.status == WorkflowStatus.RUNNING:
             task.status = WorkflowStatus.TERMINAL
             task.end_time = end_time
